@@ -74,13 +74,20 @@ Proof.
   repeat split; congruence.
 Qed.
 
+Lemma set_rec_val_keys : forall c l i v,
+  map (fun r => (m_tag r, m_nil r)) (set_rec_val c i v l) = map (fun r => (m_tag r, m_nil r)) l.
+Proof.
+  intros c l i v. unfold set_rec_val. destruct (x_setall (c_x c)); [|apply set_nth_val_keys].
+  unfold set_all_val. rewrite map_map. reflexivity.
+Qed.
+
 Lemma set_column_frame : forall c i v s, wf_shape (c_shape c) ->
   let s' := set_column c i v s in
   same_frame s s' /\ s_k s' = s_k s /\ s_err s' = s_err s /\ s_tr s' = s_tr s.
 Proof.
   intros c i v s W. unfold set_column, wf_shape in *.
-  destruct (c_dest c); destruct (sh_cont (c_shape c)); try rewrite W; cbn -[set_nth_val];
-    unfold same_frame, keys; cbn -[set_nth_val]; rewrite ?set_nth_val_keys; repeat split; reflexivity.
+  destruct (c_dest c); destruct (sh_cont (c_shape c)); try rewrite W; cbn -[set_nth_val set_rec_val];
+    unfold same_frame, keys; cbn -[set_nth_val set_rec_val]; rewrite ?set_nth_val_keys, ?set_rec_val_keys; repeat split; reflexivity.
 Qed.
 
 (* ---------------------------------------------------------------- one invocation *)
